@@ -1484,7 +1484,7 @@ fn gen_and_run(args: &Args, out: &mut Out, ctx: &mut Ctx) {
     // (E) syscall traces and (F) kill points, on the scripted peer
     let mut kidx = 0u64;
     for &p in &PULLERS {
-        let zstd_opts: Vec<bool> = if p == Puller::BeveZst || p == Puller::Beve { vec![true] } else if thorough { vec![false, true] } else { vec![false] };
+        let zstd_opts: Vec<bool> = if p == Puller::BeveZst || p == Puller::Beve { vec![true] } else if thorough || p == Puller::FileAsync { vec![false, true] } else { vec![false] };
         for zstd in zstd_opts {
             let n = 9250 + rng.below(50) as usize;
             let logical: Vec<u8> = if zstd { (0..n).map(|j| (j % 11) as u8 + 1).collect() } else { rng.bytes(n).iter().map(|b| b | 1).collect() };
